@@ -11,7 +11,7 @@ use crate::core::*;
 use crate::rng::{mix, Rng};
 use crate::tt::{self, TT};
 use crate::worlds::bdd::gen_operand;
-use crate::worlds::sdd::{self as ws, build_vtree_from_order, collect, leaves_mask, pkey, show, sig, tree_size, Ptr};
+use crate::worlds::sdd::{self as ws, build_vtree_from_order, collect, pkey, show, sig, tree_size, Ptr};
 use rsdd::builder::sdd::{CompressionSddBuilder, SddBuilder};
 use rsdd::builder::BottomUpBuilder;
 use rsdd::repr::{BinarySDD, DDNNFPtr, SddAnd, SddOr, SddPtr, VarLabel};
@@ -20,8 +20,9 @@ use std::collections::{BTreeMap, BTreeSet};
 pub struct SddMidWorld;
 
 use crate::worlds::sdd::{K_AND, K_AUDIT, K_COMPOSE, K_COND, K_CONST, K_EQ, K_EXISTS, K_IFF, K_ITE, K_NEG, K_OR, K_REISSUE, K_VAR, K_XOR};
-const NKINDS: usize = 14;
-const KNAMES: [&str; NKINDS] = ["var", "const", "negate", "and", "or", "xor", "iff", "ite", "condition", "exists", "compose", "eq", "reissue", "audit"];
+pub const K_IFFCHAIN: u8 = 14;
+const NKINDS: usize = 15;
+const KNAMES: [&str; NKINDS] = ["var", "const", "negate", "and", "or", "xor", "iff", "ite", "condition", "exists", "compose", "eq", "reissue", "audit", "iff-chain"];
 const NB: usize = 4;
 type M = [TT; NB];
 
@@ -40,7 +41,12 @@ const M_TRUE: M = [tt::TRUE; NB];
 struct Cube {
     free: Vec<usize>,
     pos: BTreeMap<usize, usize>,
-    base: [u32; NB],
+    /// one bit per *slot*
+    base: [u128; NB],
+    /// label -> slot for every variable operations may mention (all of them up to 120 variables, a chosen set beyond)
+    slot: BTreeMap<usize, u8>,
+    /// the labels that have a slot, in vtree leaf order
+    used: Vec<usize>,
 }
 impl Cube {
     fn lit(&self, v: usize, pol: bool) -> M {
@@ -49,17 +55,19 @@ impl Cube {
             None => {
                 let mut m = M_FALSE;
                 for (b, x) in m.iter_mut().enumerate() {
-                    *x = if ((self.base[b] >> v) & 1 == 1) == pol { tt::TRUE } else { tt::FALSE };
+                    // a label no operation ever mentioned reads as false (and will show up as a wrong function)
+                    let bit = self.slot.get(&v).map(|s| (self.base[b] >> s) & 1 == 1).unwrap_or(false);
+                    *x = if bit == pol { tt::TRUE } else { tt::FALSE };
                 }
                 m
             }
         }
     }
-    /// bitmask over free positions of the free variables contained in a label mask
-    fn free_positions(&self, label_mask: u32) -> u32 {
+    /// bitmask over free positions of the free variables that are leaves of the vtree `vt`
+    fn free_under(&self, vt: &rsdd::repr::VTree) -> u32 {
         let mut m = 0;
         for (j, v) in self.free.iter().enumerate() {
-            if (label_mask >> v) & 1 == 1 {
+            if vt.contains_leaf(&|l: &VarLabel| l.value_usize() == *v) {
                 m |= 1 << j;
             }
         }
@@ -131,7 +139,25 @@ struct Resolved {
     x: [usize; 3],
     label: usize,
     flag: bool,
+    /// iff-chain: (number of pairs, offset) into the used-variable list
+    chain: (usize, usize),
     result: Option<usize>,
+}
+
+/// the variable pairs of an iff-chain: the i-th used variable of the first half with the i-th of the second half
+/// (in vtree leaf order), so that for vtrees splitting near the middle the conjunction is one wide node
+fn chain_pairs(used: &[usize], k: usize, off: usize) -> Vec<(usize, usize)> {
+    let half = used.len() / 2;
+    (0..k.min(half)).map(|i| (used[(off + i) % half], used[half + (off + i) % (used.len() - half)])).collect()
+}
+
+fn apply_chain(b: &'static CompressionSddBuilder<'static>, pairs: &[(usize, usize)]) -> Ptr {
+    let mut acc = b.true_ptr();
+    for (x, y) in pairs {
+        let e = b.iff(b.var(VarLabel::new(*x as u64), true), b.var(VarLabel::new(*y as u64), true));
+        acc = b.and(acc, e);
+    }
+    acc
 }
 
 fn apply(b: &'static CompressionSddBuilder<'static>, r: &Resolved, pool: &[Ptr]) -> Ptr {
@@ -197,16 +223,23 @@ fn mshow(m: &M) -> String {
 }
 
 /// the parts of C04 that are decidable structurally or sound from samples
-fn check_node(ctx: &mut Ctx, b: &'static CompressionSddBuilder<'static>, node: Ptr, cube: &Cube, memo: &mut BTreeMap<usize, M>) -> R {
+fn check_node(ctx: &mut Ctx, b: &'static CompressionSddBuilder<'static>, node: Ptr, cube: &Cube, memo: &mut BTreeMap<usize, M>, sides: &mut BTreeMap<usize, (u32, u32)>) -> R {
     let vm = b.vtree_manager();
-    let vt = vm.vtree(node.vtree());
-    let (lmask, rmask) = match vt {
-        rsdd::util::btree::BTree::Node((), l, r) => (leaves_mask(l), leaves_mask(r)),
-        rsdd::util::btree::BTree::Leaf(_) => {
-            return ctx.check("C04", "sdd-node-at-leaf-vtree", false, || format!("decision node {} is attached to a leaf of the vtree", show(node)));
+    let vidx = node.vtree();
+    let vt = vm.vtree(vidx);
+    let (lfree, rfree) = match sides.get(&vidx.value()) {
+        Some(x) => *x,
+        None => {
+            let x = match vt {
+                rsdd::util::btree::BTree::Node((), l, r) => (cube.free_under(l), cube.free_under(r)),
+                rsdd::util::btree::BTree::Leaf(_) => {
+                    return ctx.check("C04", "sdd-node-at-leaf-vtree", false, || format!("decision node {} is attached to a leaf of the vtree", show(node)));
+                }
+            };
+            sides.insert(vidx.value(), x);
+            x
         }
     };
-    let (lfree, rfree) = (cube.free_positions(lmask), cube.free_positions(rmask));
     let elems: Vec<SddAnd<'static>> = match node {
         SddPtr::BDD(bn) => vec![SddAnd::new(SddPtr::Var(bn.label(), true), bn.high()), SddAnd::new(SddPtr::Var(bn.label(), false), bn.low())],
         SddPtr::Reg(o) => o.iter().copied().collect(),
@@ -240,10 +273,12 @@ fn check_node(ctx: &mut Ctx, b: &'static CompressionSddBuilder<'static>, node: P
 }
 
 fn run(plan: &Plan, ctx: &mut Ctx) -> R {
-    let nvars = plan.get("nvars").clamp(8, 24) as usize;
+    let nvars = plan.get("nvars").clamp(8, 200_000) as usize;
     let compress = plan.get("compress") != 0;
     let mut perm: Vec<usize> = (0..nvars).collect();
-    Rng::new(plan.get("order_seed") as u64).shuffle(&mut perm);
+    if plan.get_or("linear_order", 0) == 0 {
+        Rng::new(plan.get("order_seed") as u64).shuffle(&mut perm);
+    }
     let order: Vec<VarLabel> = perm.iter().map(|v| VarLabel::new(*v as u64)).collect();
     let mk = || -> &'static CompressionSddBuilder<'static> {
         let mut b = CompressionSddBuilder::new(build_vtree_from_order(&order, plan.get("vt_shape"), plan.get("vt_seed") as u64));
@@ -261,10 +296,40 @@ fn run(plan: &Plan, ctx: &mut Ctx) -> R {
         None
     };
     let mut cr = Rng::new(plan.get("cube_seed") as u64);
-    let mut vars: Vec<usize> = (0..nvars).collect();
+    // which variables operations may mention, listed by leaf rank in the vtree
+    let used_ranks: Vec<usize> = if nvars <= 120 {
+        (0..nvars).collect()
+    } else {
+        // tens of thousands of variables: ~40 of them, at the leaf ranks / labels where 15/16-bit positions and
+        // labels wrap (vtree in-order positions are 2*rank), plus random ones
+        let mut u: Vec<usize> = Vec::new();
+        for base in [0usize, 1, 2, 16383, 16384, 32767, 32768, 32769, 65535, 65536] {
+            u.push(base);
+        }
+        for _ in 0..14 {
+            u.push(cr.below(nvars as u64) as usize);
+        }
+        // ranks of a few labels that do not fit 16 bits
+        for lbl in [65536usize, 65537, 65538, 65539, 65600, 66000, 67000, 70000, 70050, 131072] {
+            if lbl < nvars {
+                if let Some(r) = perm.iter().position(|x| *x == lbl) {
+                    u.push(r);
+                }
+            }
+        }
+        u.retain(|r| *r < nvars);
+        u.sort_unstable();
+        u.dedup();
+        u
+    };
+    let used: Vec<usize> = used_ranks.iter().map(|r| perm[*r]).collect();
+    let slot: BTreeMap<usize, u8> = used.iter().enumerate().map(|(j, v)| (*v, j as u8)).collect();
+    let mut vars: Vec<usize> = used.clone();
     cr.shuffle(&mut vars);
     let free: Vec<usize> = vars[..7].to_vec();
-    let cube = Cube { pos: free.iter().enumerate().map(|(j, v)| (*v, j)).collect(), free, base: [cr.next() as u32, cr.next() as u32, cr.next() as u32, cr.next() as u32] };
+    let wide128 = |r: &mut Rng| ((r.next() as u128) << 64) | r.next() as u128;
+    let cube = Cube { pos: free.iter().enumerate().map(|(j, v)| (*v, j)).collect(), free, base: [wide128(&mut cr), wide128(&mut cr), wide128(&mut cr), wide128(&mut cr)], slot, used };
+    let mut sides: BTreeMap<usize, (u32, u32)> = BTreeMap::new();
 
     let mut pool: Vec<Ptr> = Vec::new();
     let mut twin_pool: Vec<Ptr> = Vec::new();
@@ -296,11 +361,11 @@ fn run(plan: &Plan, ctx: &mut Ctx) -> R {
         let caller = (op.c & 3) as usize;
         let n = pool.len();
         let mut kind = op.k;
-        if n == 0 && !matches!(kind, K_VAR | K_CONST) {
+        if n == 0 && !matches!(kind, K_VAR | K_CONST | K_IFFCHAIN) {
             kind = K_VAR;
         }
-        let mut r = Resolved { kind, x: [0; 3], label: 0, flag: op.a[3] & 1 == 1, result: None };
-        if !matches!(kind, K_VAR | K_CONST | K_REISSUE | K_AUDIT) {
+        let mut r = Resolved { kind, x: [0; 3], label: 0, flag: op.a[3] & 1 == 1, chain: (0, 0), result: None };
+        if !matches!(kind, K_VAR | K_CONST | K_REISSUE | K_AUDIT | K_IFFCHAIN) {
             let nops = match kind {
                 K_NEG | K_COND | K_EXISTS => 1,
                 K_ITE => 3,
@@ -315,8 +380,14 @@ fn run(plan: &Plan, ctx: &mut Ctx) -> R {
         }
         let free_label = |a: i64| cube.free[a.unsigned_abs() as usize % cube.free.len()];
         match kind {
-            K_VAR => r.label = (op.a[0].unsigned_abs() as usize) % nvars,
+            K_VAR => r.label = cube.used[(op.a[0].unsigned_abs() as usize) % cube.used.len()],
             K_CONST => {}
+            K_IFFCHAIN => {
+                // only vtrees that split near the middle keep such a conjunction one wide node; on linear or random vtrees
+                // far-apart pairs make it exponential, so a single pair is used there
+                let kmax = if matches!(plan.get("vt_shape"), 2 | 3) { 6 } else { 1 };
+                r.chain = (1 + op.a[0].unsigned_abs() as usize % kmax + (kmax > 1) as usize, op.a[1].unsigned_abs() as usize)
+            }
             K_NEG => r.x[0] = resolve(op.a[0], caller, &own, n),
             K_AND | K_OR | K_XOR | K_IFF | K_EQ => {
                 r.x[0] = resolve(op.a[0], caller, &own, n);
@@ -345,7 +416,7 @@ fn run(plan: &Plan, ctx: &mut Ctx) -> R {
                 if h.result.is_none() || big[h.result.unwrap()] {
                     continue;
                 }
-                let p = apply(b, &h, &pool);
+                let p = if h.kind == K_IFFCHAIN { apply_chain(b, &chain_pairs(&cube.used, h.chain.0, h.chain.1)) } else { apply(b, &h, &pool) };
                 let prev = pool[h.result.unwrap()];
                 ctx.ev(600 + K_REISSUE as u64, &[j as u64, pkey(p).0 as u64, pkey(p).1 as u64]);
                 let t = walk(p, &cube, &mut BTreeMap::new());
@@ -355,7 +426,7 @@ fn run(plan: &Plan, ctx: &mut Ctx) -> R {
                 }
                 if let Some(t) = twin {
                     let was = rsdd::verif::set_faults_enabled(false);
-                    let _ = apply(t, &h, &twin_pool);
+                    let _ = if h.kind == K_IFFCHAIN { apply_chain(t, &chain_pairs(&cube.used, h.chain.0, h.chain.1)) } else { apply(t, &h, &twin_pool) };
                     rsdd::verif::set_faults_enabled(was);
                 }
                 continue;
@@ -379,8 +450,12 @@ fn run(plan: &Plan, ctx: &mut Ctx) -> R {
             history.push(r);
             continue;
         }
-        let p = apply(b, &r, &pool);
-        let want = model_of(&r, &ms, &cube);
+        let p = if kind == K_IFFCHAIN { apply_chain(b, &chain_pairs(&cube.used, r.chain.0, r.chain.1)) } else { apply(b, &r, &pool) };
+        let want = if kind == K_IFFCHAIN {
+            chain_pairs(&cube.used, r.chain.0, r.chain.1).iter().fold(M_TRUE, |acc, (x, y)| m_zip(acc, m_zip(cube.lit(*x, true), cube.lit(*y, true), tt::iff), |a, c| a & c))
+        } else {
+            model_of(&r, &ms, &cube)
+        };
         let hidx = pool.len();
         r.result = Some(hidx);
         history.push(r);
@@ -410,14 +485,14 @@ fn run(plan: &Plan, ctx: &mut Ctx) -> R {
             collect(p, &mut nodes);
             for (a, nd) in nodes.iter() {
                 if audited.insert(*a) {
-                    check_node(ctx, b, *nd, &cube, &mut memo)?;
+                    check_node(ctx, b, *nd, &cube, &mut memo, &mut sides)?;
                 }
             }
         }
         if let Some(t) = twin {
             ctx.cur_prop = "C16";
             let was = rsdd::verif::set_faults_enabled(false);
-            let q = apply(t, &r, &twin_pool);
+            let q = if kind == K_IFFCHAIN { apply_chain(t, &chain_pairs(&cube.used, r.chain.0, r.chain.1)) } else { apply(t, &r, &twin_pool) };
             rsdd::verif::set_faults_enabled(was);
             twin_pool.push(q);
             // structure is only canonical (hence comparable) with compression; otherwise compare the function on the samples
@@ -470,10 +545,18 @@ impl World for SddMidWorld {
         let mut o = Rng::stream(run_seed, "ops");
         let mut s = Rng::stream(run_seed, "schedule");
         let mut p = Rng::stream(run_seed, "placement");
-        cfg.insert("nvars".into(), 8 + c.below(13) as i64);
+        // one run in forty: tens of thousands of variables (vtree positions / labels beyond 15 and 16 bits)
+        let huge = c.below(150) == 0;
+        cfg.insert("nvars".into(), if huge { *c.pick(&[33_000i64, 65_540, 70_100]) } else { 8 + c.below(13) as i64 });
+        cfg.insert("linear_order".into(), (c.below(5) == 0) as i64);
+        if huge {
+            cfg.insert("arena".into(), 2);
+        }
         cfg.insert("order_seed".into(), (c.next() >> 2) as i64);
         cfg.insert("cube_seed".into(), (c.next() >> 2) as i64);
-        cfg.insert("vt_shape".into(), c.below(6) as i64);
+        // (huge vtrees must be balanced or random: rsdd's VTreeManager clones every sub-vtree into a lookup table,
+        // which is quadratic in memory for linear vtrees)
+        cfg.insert("vt_shape".into(), if huge { 3 } else { c.below(6) as i64 });
         cfg.insert("vt_seed".into(), (c.next() >> 2) as i64);
         let compress = if target == "C04" { true } else { c.below(4) != 0 };
         cfg.insert("compress".into(), compress as i64);
@@ -491,7 +574,7 @@ impl World for SddMidWorld {
         }
         let ncallers = 1 + c.below(4);
         let mut w = [0u32; NKINDS];
-        let base = [10, 1, 5, 10, 9, 6, 6, 7, 6, 5, 4, 3, 4, 3];
+        let base = [10, 1, 5, 10, 9, 6, 6, 7, 6, 5, 4, 3, 4, 3, 2];
         for k in 0..NKINDS {
             w[k] = if c.below(6) == 0 { 0 } else { base[k] * (1 + c.below(3) as u32) };
         }
@@ -499,17 +582,18 @@ impl World for SddMidWorld {
         let len = 12 + o.below(if thorough { 120 } else { 60 });
         let mut ops = Vec::new();
         for _ in 0..(4 + c.below(6)) {
-            ops.push(Op { c: s.below(ncallers) as u8, k: K_VAR, a: [o.below(32) as i64, 0, 0, o.below(2) as i64] });
+            ops.push(Op { c: s.below(ncallers) as u8, k: K_VAR, a: [o.below(128) as i64, 0, 0, o.below(2) as i64] });
         }
         for _ in 0..len {
             let caller = s.below(ncallers) as u8;
             let k = o.weighted(&w) as u8;
             let a = match k {
-                K_VAR => [o.below(32) as i64, 0, 0, o.below(2) as i64],
+                K_VAR => [o.below(128) as i64, 0, 0, o.below(2) as i64],
                 K_CONST => [0, 0, 0, o.below(2) as i64],
                 K_COND | K_EXISTS => [gen_operand(&mut o), o.below(8) as i64, 0, o.below(2) as i64],
                 K_COMPOSE => [gen_operand(&mut o), gen_operand(&mut o), o.below(8) as i64, 0],
                 K_REISSUE => [o.below(1 << 16) as i64, 0, 0, 0],
+                K_IFFCHAIN => [o.below(6) as i64, o.below(64) as i64, 0, 0],
                 _ => [gen_operand(&mut o), gen_operand(&mut o), gen_operand(&mut o), 0],
             };
             ops.push(Op { c: caller, k, a });
